@@ -343,6 +343,8 @@ pub async fn run_cli(case: Vec<String>) -> String {
     let unmatched: Arc<Mutex<u32>> = Default::default();
     // optional mode: senderr:<k> (the k-th transmission fails), abandon:<ms> (the caller drops the call after ms)
     let mode = case.get(6).cloned().unwrap_or_default();
+    // class of the response with the matching transaction id: success or error (both complete the request)
+    let resp_class = if case.get(7).map(|s| s.as_str()) == Some("err") { Class::Error } else { Class::Success };
     let fail_from = mode.strip_prefix("senderr:").and_then(|k| k.parse().ok());
     let abandon: Option<u64> = mode.strip_prefix("abandon:").and_then(|k| k.parse().ok());
     let ep = Arc::new(stun::StunEndpoint::new(User { sends: sends.clone(), unmatched: unmatched.clone(), start, fail_from }));
@@ -364,7 +366,7 @@ pub async fn run_cli(case: Vec<String>) -> String {
         evs.sort();
         for (t, id) in evs {
             tokio::time::sleep_until(start + Duration::from_millis(t)).await;
-            let r = MessageBuilder::new(Class::Success, Method::Binding, id).finish();
+            let r = MessageBuilder::new(if id == tsx { resp_class } else { Class::Success }, Method::Binding, id).finish();
             let msg = ParsedMessage::parse(r).unwrap();
             ep2.receive(msg, target, Tp(false)).await;
         }
